@@ -1,10 +1,24 @@
 /-
 C02 — The request list of every advance_frame call is executable and frame-consistent
 (the producers of the three request kinds).
+
+`C02_consistent_partial` (Proofs/Replay.lean, Shape.lean, Consistent.lean, World.lean) is the
+all-schedules statement for rollback-mode P2P sessions WITHOUT sparse saving and without
+disconnected players: for every interleaving of remote-input arrivals and `advance_frame` calls,
+with the game executing every request list in order and its saves reaching the cells, the request
+list of the next call passes the frame-consistency check `ChkList` from the current check state —
+every SaveGameState names the frame the game is at, every LoadGameState names an earlier frame
+whose cell is tagged with it and still holds a state of the CURRENT timeline, AdvanceFrame
+requests move one frame on — and afterwards the game is at `current_frame()`, unchanged or one
+higher. `GInv_execs` turns a passed check into "the game's state is the replay of its timeline and
+every load restored the state of the loaded frame". Sparse saving, the disconnect paths, SyncTest
+and spectator sessions are decided by the monitor on traces (their request lists are checked by
+the same clauses there).
 -/
 import GgrsModel.Properties.C04
 import GgrsModel.Proofs.Monad
 import GgrsModel.Proofs.Queue
+import GgrsModel.Proofs.World
 
 namespace Ggrs.SyncLayer
 
@@ -47,3 +61,21 @@ theorem C02_save_then_cell (s : SyncLayer) (f : Frame) (cs : Option Nat)
   exact rget_rset_eq _ _ _ hlen
 
 end Ggrs.SyncLayer
+
+namespace Ggrs
+
+/-- **C02, all schedules (partial: rollback mode, no sparse saving, no disconnected players).** -/
+theorem C02_consistent_partial {G : Type} (step : G → List (Input × InputStatus) → G) (g0 : G)
+    (a b : P2P × GS G) (h0 : WInv step g0 a.1 a.2) (hrun : WStar step a b)
+    (now : Nat) (pre reqs' : List Request) (s' : P2P)
+    (hpre : pre = [] ∨ (b.1.sync.currentFrame = 0 ∧ pre = [.save 0]))
+    (hadv : b.1.advanceRollbackFrame now pre = .ok (s', reqs')) :
+    (∃ c c', QInv b.1.sync.cells.length c ∧ GInv step g0 b.1.sync.cells.length b.2 c ∧
+      ChkList b.1.sync.cells.length c reqs' c' ∧ c'.cur = s'.sync.currentFrame) ∧
+    (s'.sync.currentFrame = b.1.sync.currentFrame ∨ s'.sync.currentFrame = b.1.sync.currentFrame + 1) := by
+  have h := WInv_run step g0 a b h0 hrun
+  have := WInv_tick step g0 b.1 s' b.2 now pre reqs' ((savedFrames reqs').map fun f => (f, none)) h hpre hadv
+    (by simp [List.map_map, Function.comp_def])
+  exact this.2
+
+end Ggrs
